@@ -19,6 +19,8 @@ pub struct HtmlFilterBodyAction {
     visitor: HtmlBodyVisitor,
     current_buffer: Option<Box<BufferLink>>,
     last_buffer: Vec<u8>,
+    // Raw text element (script, style, title, ...) in which the previous chunk ended
+    raw_context: Option<String>,
 }
 
 lazy_static! {
@@ -77,6 +79,7 @@ impl HtmlFilterBodyAction {
             leave: None,
             last_buffer: Vec::new(),
             current_buffer: None,
+            raw_context: None,
             visitor,
         }
     }
@@ -95,16 +98,23 @@ impl HtmlFilterBodyAction {
             Err(error) => return Err(html::HtmlParseError::from(error).into()),
         };
 
-        let mut tokenizer = html::Tokenizer::new(data);
+        // When the previous chunk ended inside a raw text element, its content was kept entirely and
+        // is read again in raw text mode: what it contains is not markup
+        let mut tokenizer = html::Tokenizer::new_fragment(data, self.raw_context.take().unwrap_or_default());
         let mut to_return = "".to_string();
 
         loop {
-            let mut token_type = tokenizer.next()?;
+            let mut text_raw_tag = tokenizer.raw_tag().to_string();
+            let mut token_type = Self::next_token(&mut tokenizer, text_raw_tag.as_str())?;
 
             if token_type == html::TokenType::ErrorToken {
                 self.last_buffer = tokenizer.raw();
                 self.last_buffer.extend(tokenizer.buffered());
                 self.last_buffer.extend(incomplete_tail);
+
+                if !text_raw_tag.is_empty() {
+                    self.raw_context = Some(text_raw_tag);
+                }
 
                 break;
             }
@@ -112,13 +122,17 @@ impl HtmlFilterBodyAction {
             let mut token_data = tokenizer.raw_as_string()?;
 
             while token_type == html::TokenType::TextToken && (token_data.contains('<') || token_data.contains("</")) {
-                token_type = tokenizer.next()?;
+                token_type = Self::next_token(&mut tokenizer, "")?;
 
                 if token_type == html::TokenType::ErrorToken {
                     self.last_buffer = token_data.into_bytes();
                     self.last_buffer.extend(tokenizer.raw());
                     self.last_buffer.extend(tokenizer.buffered());
                     self.last_buffer.extend(incomplete_tail);
+
+                    if !text_raw_tag.is_empty() {
+                        self.raw_context = Some(text_raw_tag);
+                    }
 
                     return Ok(to_return.into_bytes());
                 }
@@ -130,6 +144,7 @@ impl HtmlFilterBodyAction {
                 }
 
                 token_data = tokenizer.raw_as_string()?;
+                text_raw_tag.clear();
             }
 
             match token_type {
@@ -183,6 +198,25 @@ impl HtmlFilterBodyAction {
         }
 
         Ok(to_return.into_bytes())
+    }
+
+    /// Read the next token. A raw text element, a comment, a doctype or a CDATA section cut by the
+    /// end of the chunk is reported as an error token, like a tag cut by the end of the chunk: its
+    /// bytes are kept for the next call instead of letting the rest be read as markup
+    fn next_token(tokenizer: &mut html::Tokenizer, raw_tag: &str) -> Result<html::TokenType> {
+        let token_type = tokenizer.next()?;
+
+        if tokenizer.err().is_none() {
+            return Ok(token_type);
+        }
+
+        let unterminated = match token_type {
+            html::TokenType::TextToken => !raw_tag.is_empty() || tokenizer.raw().starts_with(b"<![CDATA["),
+            html::TokenType::CommentToken | html::TokenType::DoctypeToken => true,
+            _ => false,
+        };
+
+        Ok(if unterminated { html::TokenType::ErrorToken } else { token_type })
     }
 
     pub fn end(&mut self) -> Vec<u8> {
